@@ -11,6 +11,7 @@ import Prov.ProvN
 import Prov.ProvNSpec
 import Prov.Graph
 import Prov.Dot
+import Prov.FileIO
 
 open Lean
 namespace Driver
